@@ -432,6 +432,11 @@ def check_C11(chk):
         for k, sz in enumerate(c['chunks']):
             if (ci + k) % 7 == 0:
                 g.append(f"hupdate id=c{ci}-z{k} obj={o} d={'null' if k % 2 else '-'} op=1")
+            if (ci + 2 * k) % 11 == 3:
+                # the caller moves the state object (memcpy) and goes on with the copy
+                o2 = (o + 1 + k % 3) % 8
+                g.append(f"hmove id=c{ci}-mv{k} obj={o} to={o2}")
+                o = o2
             g.append(f"hupdate id=c{ci}-u{k} obj={o} d={hx(m[pos:pos + sz])} op=1 pl={'es'[k % 2]} off=0,{k % 8}")
             pos += sz
         g.append(f"hfinal id=c{ci}-f obj={o} op=1")
@@ -583,6 +588,18 @@ def check_C12(chk):
                            f"hmfinal id=vk{kl}{cls}-f obj={o} k={hx(k)}"])
     for kl, ml in ((0, 0), (5, 1), (32, 32), (64, 33), (65, 40), (100, 64), (200, 100)):
         groups.append([f"hmac id=ip{kl}-{ml} k={datav(r, kl) if kl else '-'} m={datav(r, ml) if ml else '-'} inplace=1"])
+    # an object is reused under another key: reinit (= free + init) with a key of another length class or other bytes of the same
+    # length, after finalize, in mid-message, and after free
+    for ri, (k1, k2) in enumerate([(5, 5), (5, 32), (32, 64), (64, 65), (65, 64), (100, 7), (100, 130), (0, 20), (20, 0)]):
+        ka, kb, o = r.bytes(k1), r.bytes(k2), ri % 8
+        ha, hb = (hx(ka) if k1 else '-'), (hx(kb) if k2 else '-')
+        m1, m2 = hx(r.bytes(9 + ri)), hx(r.bytes(20 + ri))
+        groups.append([f"hminit id=rk{ri}-i obj={o} k={ha}", f"hmupdate id=rk{ri}-u obj={o} d={m1}", f"hmfinal id=rk{ri}-f obj={o} k={ha}",
+                       f"hmreinit id=rk{ri}-r obj={o} k={hb}", f"hmupdate id=rk{ri}-v obj={o} d={m2}", f"hmfinal id=rk{ri}-g obj={o} k={hb}",
+                       f"hmupdate id=rk{ri}-w obj={o} d={m1}" if False else f"hmreinit id=rk{ri}-r2 obj={o} k={ha}",
+                       f"hmupdate id=rk{ri}-x obj={o} d={m1}", f"hmreinit id=rk{ri}-r3 obj={o} k={hb}", f"hmupdate id=rk{ri}-y obj={o} d={m2}",
+                       f"hmfinal id=rk{ri}-h obj={o} k={hb}", f"hmfree id=rk{ri}-z obj={o}",
+                       f"hmreinit id=rk{ri}-r4 obj={o} k={ha}", f"hmupdate id=rk{ri}-a obj={o} d={m2}", f"hmfinal id=rk{ri}-b obj={o} k={ha}"])
     execs = run_exec_groups(exe, groups)
     from fam_cipher import kat_program_traces
     kx = kat_program_traces(chk, ['TinyJAMBU-HMAC'], 0.03 if chk.thorough else 0.003)
